@@ -1,5 +1,6 @@
-(* C11 — the helpers on a model mirror the machine and the model's state (flat machines;
-   the hierarchical part is tied by the correspondence check, see manifest.d/C11.json).
+(* C11 — the helpers on a model mirror the machine and the model's state.  Flat machines:
+   first part (naming model of Naming.v); hierarchical machines: second part, over the
+   hierarchical definitions of Hsm.v (NamingH.v).
    Statements only; each is closed by [exact] of a lemma proved in Proofs/NamingP.v.
    [run c ops] is the machine after the history [ops] (constructor arguments are its first
    operations); [wf_run wf_op] is the envelope: state names non-empty, user events not
@@ -106,3 +107,89 @@ Example C11_envelope_inhabited :
   /\ map (fun o => cur_state ex_cfg o) (m_models (run ex_cfg ex_ops)) = [Some "C"; Some "C"].
 Proof. exact ex_wf. Qed.
 Print Assumptions C11_envelope_inhabited.
+
+(* ================================================================== hierarchical machines *)
+From M Require Import Base Flat Hsm HsmSpec NamingH.
+From P Require Import HsmForest NamingHP.
+
+(* is_<state>() without allow_substates: for every configuration with unique sibling names the
+   helpers answering True are exactly those of the active leaves *)
+Theorem C11_hsm_is_leaves :
+  forall (f : forest) (p : path), uniq f = true -> p <> [] ->
+  (is_state_h f p false = true <-> In p (leaves f)).
+Proof. exact is_state_leaves. Qed.
+Print Assumptions C11_hsm_is_leaves.
+
+(* ... with allow_substates=True: exactly those of the active leaves and all their ancestors,
+   i.e. of all active states ([nodes]) *)
+Theorem C11_hsm_is_ancestors :
+  forall (f : forest) (p : path), uniq f = true -> p <> [] ->
+  (is_state_h f p true = true <-> exists l, In l (leaves f) /\ is_prefix p l).
+Proof. exact is_state_active. Qed.
+Print Assumptions C11_hsm_is_ancestors.
+Theorem C11_hsm_is_nodes :
+  forall (f : forest) (p : path), uniq f = true ->
+  (is_state_h f p true = true /\ p <> [] <-> In p (nodes f)).
+Proof. exact is_state_nodes. Qed.
+Print Assumptions C11_hsm_is_nodes.
+
+(* exactly one helper answers True in a configuration with one active leaf (exclusive
+   configurations), among any duplicate-free list of registered states containing it *)
+Theorem C11_hsm_exactly_one_exclusive :
+  forall (f : forest) (l : path) (reg : list path), uniq f = true -> leaves f = [l] ->
+  NoDup reg -> In l reg -> ~ In [] reg ->
+  filter (fun p => is_state_h f p false) reg = [l].
+Proof. exact exactly_one_exclusive. Qed.
+Print Assumptions C11_hsm_exactly_one_exclusive.
+
+(* the same in terms of the model's state value ls (a list of state paths), from which
+   is_state rebuilds the tree: the tree has unique sibling names whatever ls is; a helper is
+   True with allow_substates iff its path is a prefix of one of the values, and without iff
+   in addition no value extends it strictly *)
+Theorem C11_hsm_model_value :
+  forall (ls : list path) (p : path), p <> [] ->
+  uniq (build_tree ls) = true
+  /\ (is_helper_h ls p true = true <-> exists l, In l ls /\ is_prefix p l)
+  /\ (is_helper_h ls p false = true <->
+        (exists l, In l ls /\ is_prefix p l) /\ forall n, ~ exists l, In l ls /\ is_prefix (p ++ [n])%list l).
+Proof. exact helper_model_value. Qed.
+Print Assumptions C11_hsm_model_value.
+
+(* get_triggers(state) as the library computes it (get_nested_triggers + the parent walk)
+   lists exactly: the events declared at the machine from the state or an ancestor, and the
+   events declared inside a state from the state itself *)
+Theorem C11_hsm_get_triggers_char :
+  forall (hm : hmachine) (p : path) (e : event), In e (get_triggers_h hm p) <-> lib_trigger hm p e.
+Proof. exact get_triggers_char. Qed.
+Print Assumptions C11_hsm_get_triggers_char.
+
+(* hence: every listed event has a transition from the state or one of its ancestors, and
+   all of them are listed unless one is declared inside a state from a strict ancestor *)
+Theorem C11_hsm_get_triggers :
+  forall (hm : hmachine) (p : path) (e : event),
+  (In e (get_triggers_h hm p) -> spec_trigger hm p e)
+  /\ (no_nested_ancestor_source hm p -> (In e (get_triggers_h hm p) <-> spec_trigger hm p e)).
+Proof. exact (fun hm p e => conj (get_triggers_sound hm p e) (get_triggers_exact hm p e)). Qed.
+Print Assumptions C11_hsm_get_triggers.
+
+(* without that guard the statement is false of the faithful model and of /repo: KF-C11-3 *)
+Theorem C11_hsm_get_triggers_refuted :
+  exists hm p e, spec_trigger hm p e /\ ~ In e (get_triggers_h hm p).
+Proof. exact get_triggers_refuted. Qed.
+Print Assumptions C11_hsm_get_triggers_refuted.
+
+(* to_<state>(): the automatic transition is declared at the machine with destination p; from
+   EVERY configuration it resolves, afterwards is_<p>(allow_substates=True) holds, what is active
+   below p is exactly its initial descent, and is_<p>() holds when p declares no initial child *)
+Theorem C11_hsm_to_state :
+  forall (f : forest) (p : path) (dd : sdefn), p <> [] ->
+  exists r, resolve f [] p dd = Some r
+    /\ sub (r_new r) p = Some (initial_tree def_depth_bound dd)
+    /\ is_state_h (r_new r) p true = true
+    /\ (initial_tree def_depth_bound dd = [] -> is_state_h (r_new r) p false = true).
+Proof.
+  exact (fun f p dd NE => match to_state_ends f p dd NE with
+         | ex_intro _ r (conj HR HS) =>
+             ex_intro _ r (conj HR (conj HS (to_state_helpers f p dd r NE HR))) end).
+Qed.
+Print Assumptions C11_hsm_to_state.
